@@ -13,7 +13,11 @@ import (
 
 var sigma4 = []string{"0", "1", "7", "8", "9", "a", "f", "g", "x", "X", ".", "+", "-", "%"}
 
+// boundary menu: every power-of-256 limit of the IPv4 parser and every machine-integer limit a
+// implementation could wrap at (2^31, 2^32, 2^63, 2^64), in decimal, hex and octal spelling
 var ipv4Parts = []string{"0", "1", "255", "256", "65535", "65536", "16777215", "16777216", "4294967295", "4294967296", "99999999999999999999",
+	"2147483647", "2147483648", "9223372036854775807", "9223372036854775808", "18446744073709551615", "18446744073709551616", "18446744073709551871",
+	"0x7fffffffffffffff", "0x8000000000000000", "0xffffffffffffffff", "0x10000000000000000", "0xffffffffffffff01", "01777777777777777777777", "02000000000000000000000", "0777777777777777777777",
 	"0xff", "0x100", "0XFFFFFFFF", "0x100000000", "0377", "0400", "037777777777", "040000000000", "", "08", "0x", "0xg", "+1", "-1", "1e3",
 	"%31", "%30x10", "０", "00", "0x00000000000000000001"}
 
@@ -59,7 +63,7 @@ func init() {
 	register(&fw.Check{
 		ID:    "C07",
 		Level: "model_checking",
-		Rule: "every host string of Sigma4^<=k (Sigma4 = digits 0 1 7 8 9, a f g x X . + - %) and every dot-joined product of 1..5 parts of a 31-item boundary menu (with/without trailing dot) is parsed as scheme://HOST/ by model and implementation " +
+		Rule: "every host string of Sigma4^<=k (Sigma4 = digits 0 1 7 8 9, a f g x X . + - %) and every dot-joined product of 1..5 parts of a 46-item boundary menu (power-of-256 limits and machine-integer wrap points 2^31/2^32/2^63/2^64 in decimal, hex, octal) (with/without trailing dot) is parsed as scheme://HOST/ by model and implementation " +
 			"(http for all; all six special schemes and the non-special foo: on the shorter ones) and compared on failure-ness, Href and getters. non-trivial = the model yields an IPv4 address (distinct host strings counted in the largest space); states = distinct resulting hostnames",
 		Assume:  []string{"reference model's ends-in-a-number / IPv4 number / IPv4 parser / serializer (big-integer arithmetic), validated through WPT"},
 		Trusted: []string{"verif/model"},
@@ -92,11 +96,11 @@ func init() {
 			for n := 1; n <= 5; n++ {
 				slots := make([][]string, n)
 				menu := ipv4Parts
-				if n >= 4 && !c.Thorough() {
-					menu = ipv4Parts[:16]
+				if n >= 3 && !c.Thorough() {
+					menu = append(append([]string{}, ipv4Parts[:8]...), "9223372036854775808", "18446744073709551615", "0xffffffffffffff01", "0x100", "0377", "", "08", "0x")
 				}
 				if n == 5 {
-					menu = ipv4Parts[:8]
+					menu = ipv4Parts[:6]
 				}
 				for i := range slots {
 					slots[i] = menu
